@@ -332,8 +332,59 @@ def gen_site(kind, rel):
                              'coq': '%s_site_gen' % kind}
 
 
+FRAG = 'singlecellmultiomics/fragment/fragment.py'
+
+
+def gen_homopolymer():
+    """Fragment.__init__: `if self.max_NUC_stretch is not None and (self.max_NUC_stretch*'A' in read.seq or ...)`
+    -> the list of nucleotides the homopolymer filter tests; CHICFragment's max_NUC_stretch literal"""
+    path = os.path.join(fw.REPO, FRAG)
+    src = open(path).read()
+    fn = py2coq.find_function(ast.parse(src), 'Fragment.__init__')
+    ifs = [n for n in ast.walk(fn) if isinstance(n, ast.If) and 'max_NUC_stretch' in ast.unparse(n.test)]
+    if len(ifs) != 1:
+        raise Untranslatable('Fragment.__init__: expected exactly one test on max_NUC_stretch, found %d' % len(ifs))
+    t = ifs[0].test
+    if not (isinstance(t, ast.BoolOp) and isinstance(t.op, ast.And) and len(t.values) == 2
+            and ast.unparse(t.values[0]) == 'self.max_NUC_stretch is not None'):
+        raise Untranslatable('homopolymer test shape: %s' % ast.unparse(t)[:200])
+    alts = t.values[1].values if isinstance(t.values[1], ast.BoolOp) and isinstance(t.values[1].op, ast.Or) else [t.values[1]]
+    bases = []
+    for a in alts:
+        ok = isinstance(a, ast.Compare) and len(a.ops) == 1 and isinstance(a.ops[0], ast.In) \
+            and ast.unparse(a.comparators[0]) in ('read.seq', 'read.query_sequence') \
+            and isinstance(a.left, ast.BinOp) and isinstance(a.left.op, ast.Mult)
+        if ok:
+            l, r = a.left.left, a.left.right
+            if ast.unparse(r) == 'self.max_NUC_stretch':
+                l, r = r, l
+            ok = ast.unparse(l) == 'self.max_NUC_stretch' and isinstance(r, ast.Constant) and isinstance(r.value, str) and len(r.value) == 1
+        if not ok:
+            raise Untranslatable('homopolymer alternative outside subset: %s' % ast.unparse(a))
+        bases.append(ord(r.value))
+    body = [ast.unparse(x) for x in ifs[0].body]
+    if body != ["self.set_rejection_reason('HomoPolymer', set_qcfail=True)", 'self.qcfail = True', 'break']:
+        raise Untranslatable('homopolymer branch body changed: %r' % body)
+    # CHICFragment passes max_NUC_stretch = <literal> to Fragment.__init__
+    csrc = open(os.path.join(fw.REPO, CHIC)).read()
+    init = py2coq.find_function(ast.parse(csrc), 'CHICFragment.__init__')
+    vals = [kw.value for n in ast.walk(init) if isinstance(n, ast.Call) and ast.unparse(n.func) == 'Fragment.__init__'
+            for kw in n.keywords if kw.arg == 'max_NUC_stretch']
+    if len(vals) != 1 or not (isinstance(vals[0], ast.Constant) and isinstance(vals[0].value, int) and vals[0].value > 0):
+        raise Untranslatable('CHICFragment: max_NUC_stretch is not a positive literal')
+    seg = ast.get_source_segment(src, t)
+    sha = hashlib.sha256(seg.encode()).hexdigest()
+    text = ('(* source: %s line %d-%d sha256 %s\n   %s *)\nDefinition nuc_stretch_bases : list Z := [%s].\n'
+            '(* source: %s CHICFragment.__init__ max_NUC_stretch *)\nDefinition chic_max_nuc_stretch : nat := %d%%nat.'
+            % (FRAG, t.lineno, t.end_lineno, sha, ' '.join(seg.split()), '; '.join(map(str, bases)), CHIC, vals[0].value))
+    return text, {'source': FRAG, 'lines': [t.lineno, t.end_lineno], 'sha256': sha, 'coq': 'nuc_stretch_bases'}
+
+
 def regen_site():
     chunks, meta = [], []
+    t, m = gen_homopolymer()
+    chunks.append(t)
+    meta.append(m)
     for kind, rel in (('nla', NLA), ('chic', CHIC)):
         t, m = gen_site(kind, rel)
         chunks.append(t)
@@ -417,7 +468,8 @@ def model_input(case):
     r2 = reads[1] if len(reads) > 1 else None
     pre = any(r is not None and r['qcfail'] for r in reads)
     return [kind, list(case['c']), len(reads) == 2, pre, enc_read(r1),
-            [] if r2 is None else [r2['unmapped'], r2['rev']]]
+            [] if r2 is None else [r2['unmapped'], r2['rev']],
+            [r['seq'] for r in reads if r is not None] if kind == 1 else []]
 
 
 def opt(v, f=lambda x: x):
@@ -532,7 +584,7 @@ class Prop(fw.PropBase):
         if how == 'none':
             return None
         n = self.rng.randint(8, 20)
-        rev = (not r1['rev']) if how in ('opposite', 'unmapped') else r1['rev']
+        rev = (not r1['rev']) if how == 'opposite' else (r1['rev'] if how == 'same' else self.rng.random() < 0.5)
         start = max(0, r1['start'] + self.rng.randint(-60, 60))
         r2 = {'start': start, 'cigar': [[0, n]], 'rev': rev, 'seq': self.rand_seq(n), 'unmapped': False,
               'qcfail': False, 'mx': r1['mx'], 'lh': None}
@@ -634,6 +686,40 @@ class Prop(fw.PropBase):
                     for mx in ('scCHIC384C8U3', None):
                         cases.append(self.chic_case(c, False, clip, 0, mx, 9 + clip, 1))
                         cases.append(self.chic_case(c, True, clip, 0, mx, 9 + clip, 100000 - 2))
+        # 1c. directed: homopolymer runs of 17/18/19 of each nucleotide in R1 or R2 (CHIC filter, max_NUC_stretch 18);
+        #     the mirrored run shows the complementary run
+        for base in 'ACGT':
+            other = {'A': 'C', 'C': 'A', 'G': 'T', 'T': 'G'}[base]
+            for n in (17, 18, 19):
+                for reverse in (False, True):
+                    for target in (0, 1):
+                        for kind in ('chic', 'nla'):
+                            c = (False, True, False, False)
+                            x = rng.randint(200, 90000)
+                            cs = self.chic_case(c, reverse, rng.choice([0, 2]), 0, rng.choice(self.MX[:4]), 40, x, pair='opposite', mid=None) \
+                                if kind == 'chic' else self.nla_case(c, reverse, rng.choice([0, 2]), 0, False, 'CATG', 40, x, pair='opposite')
+                            r = cs['reads'][target]
+                            if target == 1:
+                                r['seq'] = self.rand_seq(36)
+                                r['cigar'] = [[0, 36]]
+                            q = r['seq']
+                            k = 8
+                            r['seq'] = q[:k - 1] + other + base * n + other + q[k + n + 1:]
+                            assert len(r['seq']) == len(q)
+                            if 'cycles' in cs['truth'] and target == 0:
+                                cs['truth']['cycles'] = revcomp(r['seq']) if reverse else r['seq']
+                            cases.append(cs)
+        # 1d. directed: read 2 present but unmapped, with either strand flag (flags 133 / 149), both R1 strands
+        for c in [c for c in self.ALL_CFG if (c[1], c[2]) == (True, False)]:
+            for reverse in (False, True):
+                for r2rev in (False, True):
+                    for mx in ('scCHIC384C8U3', None):
+                        cs = self.chic_case(c, reverse, rng.choice([0, 1, 3]), 0, mx, 20, rng.randint(200, 90000), pair='unmapped')
+                        cs['reads'][1]['rev'] = r2rev
+                        cases.append(cs)
+                    cs = self.nla_case(c, reverse, rng.choice([0, 1, 3]), 0, False, 'CATG', 20, rng.randint(200, 90000), pair='unmapped')
+                    cs['reads'][1]['rev'] = r2rev
+                    cases.append(cs)
         n_exh = len(cases)
         # 2. random: longer reads, indel CIGARs, pairs, qcfail input, motif errors
         N = 3000 if quick else 150000
@@ -675,6 +761,32 @@ class Prop(fw.PropBase):
                     idxs.append(len(cases))
                     cases.append(cs)
             self.libs.append({'id': li, 'kind': kind, 'c': list(c), 'idx': idxs})
+        # 2b'. command line: bamtagmultiome.py -method nla|chic with each fragment-level flag
+        FLAGS = {'--no_umi_cigar_processing': 0, '--no_restriction_motif_check': 1, '--allow_cycle_shift': 2}
+        self.clis = []
+        combos = [('nla', []), ('nla', ['--no_umi_cigar_processing']), ('nla', ['--no_restriction_motif_check']),
+                  ('nla', ['--allow_cycle_shift']), ('nla', list(FLAGS)),
+                  ('chic', []), ('chic', ['--no_umi_cigar_processing']), ('chic', ['--allow_cycle_shift']),
+                  ('chic', ['--allow_cycle_shift', '--no_umi_cigar_processing'])]
+        for li, (kind, flags) in enumerate(combos):
+            c = [False, True, False, False]
+            for f in flags:
+                if kind == 'nla' or f == '--no_umi_cigar_processing':
+                    c[FLAGS[f]] = (FLAGS[f] != 1)
+            idxs = []
+            for k in range(30 if quick else 120):
+                p = 500 + 700 * k + rng.randint(0, 40)
+                reverse, clip, tail = rng.random() < 0.5, rng.choice([0, 1, 2, 3, 6]), rng.choice([0, 0, 2])
+                pair = rng.choice(['none', 'opposite'])
+                if kind == 'nla':
+                    cs = self.nla_case(c, reverse, clip, tail, rng.random() < 0.3, rng.choice(self.MOTIFS[:12]),
+                                       rng.randint(10, 40), p, pair=pair)
+                else:
+                    cs = self.chic_case(c, reverse, clip, tail, rng.choice(self.MX), rng.randint(10, 40), p, pair=pair)
+                if cs:
+                    idxs.append(len(cases))
+                    cases.append(cs)
+            self.clis.append({'id': li, 'kind': kind, 'flags': flags, 'c': list(c), 'idx': idxs})
         # 2c. molecules: 2-4 fragments of one cut (ragged within the assignment radius for chic) plus an unrelated
         #     fragment, tagged through MoleculeIterator + write_tags, as given and mirrored
         self.mols = []
@@ -720,6 +832,10 @@ class Prop(fw.PropBase):
                     out.append(json.load(open(os.path.join(d, f))))
         return out
 
+    def cli_payload(self, cases):
+        return [{'id': l['id'], 'kind': l['kind'], 'flags': l['flags'],
+                 'cases': [self.payload_case(cases[k]) for k in l['idx']]} for l in self.clis]
+
     def mol_payload(self, cases, mirrored):
         out = []
         for m in self.mols:
@@ -743,8 +859,8 @@ class Prop(fw.PropBase):
         bam_payload = [{'id': lib['id'], 'kind': lib['kind'], 'cfg': cfg_kwargs(lib['kind'], lib['c']),
                         'cases': [self.payload_case(cases[k]) for k in lib['idx']]} for lib in self.libs]
         out = fw.run_impl('impl_c09.py', {'cases': [self.payload_case(c) for c in allc], 'bam': bam_payload,
-                                          'mol': self.mol_payload(cases, mirrored)})
-        res, self.bam_res, self.mol_res = out['cases'], out['bam'], out['mol']
+                                          'mol': self.mol_payload(cases, mirrored), 'cli': self.cli_payload(cases)})
+        res, self.bam_res, self.mol_res, self.cli_res = out['cases'], out['bam'], out['mol'], out['cli']
         self.allc, self.res = allc, res
         impl, problems = [], []
         for cs, r in zip(allc, res):
@@ -824,6 +940,24 @@ class Prop(fw.PropBase):
                     dis.append({'what': 'fragment the model rejects was emitted by MoleculeIterator',
                                 'input': self.payload_case(cases[k]), 'model': m, 'impl': got})
         self.cov['bam_roundtrip_fragments'] = nbam
+        # command line: tags in the BAM written by bamtagmultiome against the model under the configuration the flags mean
+        ncli = 0
+        for lib, cr in zip(self.clis, self.cli_res):
+            if 'error' in cr:
+                dis.append({'what': 'bamtagmultiome -method %s %s raised' % (lib['kind'], ' '.join(lib['flags'])), 'impl': cr['error']})
+                continue
+            for n, k in enumerate(lib['idx']):
+                m, got = mout[off + k], cr.get('f%04d' % n)
+                ncli += 1
+                if not isinstance(m, dict):
+                    continue
+                exp = {'DS': m['DS'], 'RS': None if m['RS'] is None else int(m['RS']), 'RZ': m['RZ']}
+                if got is None or any({t: v[t] for t in exp} != exp for v in got.values()):
+                    dis.append({'what': 'tags written by `bamtagmultiome.py -method %s %s` differ from the model under configuration %r'
+                                        % (lib['kind'], ' '.join(lib['flags']), dict(zip(CFG_KEYS, lib['c']))),
+                                'input': self.payload_case(cases[k]), 'model': exp, 'impl': got})
+        self.cov['command_line_fragments'] = ncli
+        self.cov['command_lines'] = ['-method %s %s' % (l['kind'], ' '.join(l['flags'])) for l in self.clis]
         # molecules: DS of every fragment after write_tags, and the molecule's cut site, against the model
         # (the grouping and the order in which fragments were added are taken from the implementation)
         nmol, m3_in, m3_exp, m3_ctx = 0, [], [], []
@@ -894,9 +1028,8 @@ class Prop(fw.PropBase):
             raise fw.Broken('correspondence', 'model and implementation disagree on %d cases; first: %r' % (len(dis), dis[0]))
 
     def in_scope(self, cs):
-        """the simulated case satisfies the hypotheses of one of the site theorems"""
-        t = cs['truth']
-        return not cs['c'][0] or t['clip'] == 0
+        """the simulated case satisfies the hypotheses of one of the theorems (site / shift / rejection)"""
+        return self.expectation(cs) is not None
 
     # ---------------------------------------------------------------- search (specification on the implementation)
     @staticmethod
@@ -907,26 +1040,26 @@ class Prop(fw.PropBase):
         if t is None:
             return None
         nocigar, cm, sh, inv = cs['c']
-        clip_ok = (not nocigar) or t['clip'] == 0
         rev = t['reverse']
+        shift = ((-t['clip']) if rev else t['clip']) if nocigar else 0      # clip_shift
         if cs['kind'] == 'nla':
             if len(cs['reads']) != 2:
                 return None
             stored = t['cycles'][1:] if t['lost'] else t['cycles']
             first4 = stored[:4]
             if not t['lost'] and first4 == 'CATG':
-                return ('site', t['p'], rev != inv, rev, 'CATG') if clip_ok else None      # C09_nla_site
+                return ('site', t['p'] + shift, rev != inv, rev, 'CATG')                    # C09_nla_site(_any_config)
             if cm and first4 != 'CATG' and (not sh or not first4.startswith('ATG')):
                 return ('rejected',)                                                        # C09_nla_reject(_simulated), _shift_off
             if t['lost'] and t['cycles'][:4] == 'CATG' and cm and sh:
-                return ('site', t['p'], rev != inv, rev, 'CAT' if rev else 'ATG') if clip_ok else None  # C09_nla_shift
+                return ('site', t['p'] + shift, rev != inv, rev, 'CAT' if rev else 'ATG')   # C09_nla_shift(_any_config)
             return None
         r2 = cs['reads'][1] if len(cs['reads']) > 1 else None
         if r2 is not None and not r2['unmapped'] and r2['rev'] == rev:
             return None
-        if not clip_ok:
-            return None
-        return ('site', t['x'] + 1 if rev else t['x'] - 1, rev != inv, rev != inv, None)    # C09_chic_site
+        if any(b * 18 in r['seq'] for r in cs['reads'] if r is not None for b in 'ACGT'):
+            return None      # C09_chic_homopolymer_rejected: the mirror relation below covers these
+        return ('site', (t['x'] + 1 if rev else t['x'] - 1) + shift, rev != inv, rev != inv, None)  # C09_chic_site_any_config
 
     def search(self):
         if getattr(self, 'res', None) is None:
@@ -937,8 +1070,8 @@ class Prop(fw.PropBase):
             bam_payload = [{'id': lib['id'], 'kind': lib['kind'], 'cfg': cfg_kwargs(lib['kind'], lib['c']),
                             'cases': [self.payload_case(cases[k]) for k in lib['idx']]} for lib in self.libs]
             out = fw.run_impl('impl_c09.py', {'cases': [self.payload_case(c) for c in self.allc], 'bam': bam_payload,
-                                              'mol': self.mol_payload(cases, mirrored)})
-            self.res, self.bam_res, self.mol_res = out['cases'], out['bam'], out['mol']
+                                              'mol': self.mol_payload(cases, mirrored), 'cli': self.cli_payload(cases)})
+            self.res, self.bam_res, self.mol_res, self.cli_res = out['cases'], out['bam'], out['mol'], out['cli']
         if getattr(self, 'impl', None) is None:
             self.impl = [canon_impl(cs, r)[0] for cs, r in zip(self.allc, self.res)]
         best = {}
@@ -1014,6 +1147,25 @@ class Prop(fw.PropBase):
                               % (got, exp), got, exp)
                 elif got is not None:
                     offer('bam:%s:reject' % cs['kind'], cs, 'fragment without CATG at its start was emitted with tags %r' % (got,), got, None)
+        # command line against the specification (the flags select the configuration the theorems speak about)
+        for lib, cr in zip(getattr(self, 'clis', []), getattr(self, 'cli_res', [])):
+            cmd = 'bamtagmultiome.py -method %s %s' % (lib['kind'], ' '.join(lib['flags']))
+            if 'error' in cr:
+                self.witnesses.append({'key': 'cli:error', 'what': cmd + ' raised ' + cr['error'], 'input': lib['flags']})
+                continue
+            for nn, k in enumerate(lib['idx']):
+                cs = self.allc[off + k]
+                e, got = self.expectation(cs), cr.get('f%04d' % nn)
+                if e is None:
+                    continue
+                if e[0] == 'site':
+                    exp = {'DS': e[1], 'RS': int(e[2]), 'RZ': e[4]}
+                    if got is None or any({t: v[t] for t in exp} != exp for v in got.values()):
+                        offer('cli:%s:%s' % (lib['kind'], '+'.join(f.strip('-') for f in lib['flags']) or 'default'), cs,
+                              '`%s` tagged the reads %r, expected %r (configuration %r)'
+                              % (cmd, got, exp, dict(zip(CFG_KEYS, lib['c']))), got, exp)
+                elif got is None or any(v['DS'] is not None for v in got.values()):
+                    offer('cli:%s:reject' % lib['kind'], cs, '`%s` assigned a site to a fragment without CATG at its start: %r' % (cmd, got), got, None)
         # molecule-level mirror relation: the same fragment set and its mirror image through
         # MoleculeIterator + write_tags must give mirrored DS / flipped RS on every read and as many molecules
         mres = getattr(self, 'mol_res', [])
